@@ -258,8 +258,9 @@ def s_unsafe(F, R):
             # set_len(n) on Vec<MaybeUninit<u8>> created with_capacity(n): no validity requirement on elements
             args = [pp(strip(y["args"][-1])) for y in walk_all(x) if y.get("k") == "Call" and y["fn"].get("name") == "set_len"]
             elem = [y for y in walk_all(x) if y.get("k") == "Call"][0]["args"][0].get("ty", "")
-            R.check("MaybeUninit<u8>" in elem and args == ["common::poll::PollHeader::remaining_len(&header)"], "S-unsafe", key,
-                    "set_len(%s) on %s" % (args, elem), where=loc(x))
+            # that the new length equals the capacity just requested (the remaining length) is decided by P-complete, which
+            # evaluates the transition; here: the element type has no validity requirement
+            R.check("MaybeUninit<u8>" in elem, "S-unsafe", key, "set_len(%s) on %s" % (args, elem), where=loc(x))
         elif f["root"].endswith("::poll") and shape and shape[0] == "core::intrinsics::transmute":
             tr = [y for y in walk_all(x) if y.get("k") == "Call"][0]
             src = strip(tr["args"][0])
